@@ -19,7 +19,7 @@
    history (which cycles, how many, examined-buckets, documented keys).
 
    consts.soft: clauses that are listed known findings; a deviation of that kind is printed as
-   a VF_NOTE "KNOWN:..." and the code's value taken over (see TraceStorageMore.tla). *)
+   a VF_NOTE "K:..." and the code's value taken over (see TraceStorageMore.tla). *)
 EXTENDS CrawlerMore, Json, IOUtils, TLCExt
 
 Traces == JsonDeserialize(IOEnv.TRACE_FILE)
@@ -182,8 +182,8 @@ TraceInit ==
 TraceNext ==
   /\ bad = "none"
   /\ l <= Len(Events)
-  /\ LET v == Verdict(E)
-         d == NewDisk(E)
+  /\ \E v \in {Verdict(E)} :       \* bound once (a LET would be re-evaluated at every use)
+     LET d == NewDisk(E)
          c == IF v.c # "" THEN v.c
               ELSE IF ToSet(E.disk) # d THEN "harness_disk_mismatch"
               ELSE ""
